@@ -303,9 +303,19 @@ def check(ctx):
                     continue
                 for (sb_, tt_, ft_) in lib.bool_arms(f, cb_):
                     implied |= {d_ for d_ in f.diverging_blocks() if f.dominates(ft_, d_)}
+        # `debug_assert!(self.validate())`: an assertion of a state invariant computed by a read-only crate predicate from the
+        # cache alone (no knowledge of the reactor being revoked): it cannot tell a first revoke from a second one
+        for cb_, t_, fr_ in f.iter_calls():
+            pb_ = prog.resolve_local(fr_) if fr_ else None
+            if pb_ is None or pb_.local_ty(0) != "bool" or pb_.arg_count != 1 or not pb_.local_ty(1).startswith("&") or pb_.local_ty(1).startswith("&mut"):
+                continue
+            if not all(o[0] == "arg" and o[1] == 1 and len(o) == 2 for o in origins(f, t_["args"][0])):
+                continue
+            for (sb_, tt_, ft_) in lib.bool_arms(f, cb_):
+                implied |= {d_ for d_ in f.diverging_blocks() if f.dominates(ft_, d_) and "assert" in (f.blocks[d_]["term"].get("exp") or "")}
         for b in f.diverging_blocks():
             if b in implied:
-                ctx.ok("C06.d", "%s:no-panic-arm" % fk, f.loc(b), "assertion implied by the dominating emptiness test of the same list")
+                ctx.ok("C06.d", "%s:no-panic-arm" % fk, f.loc(b), "assertion implied by the dominating emptiness test of the same list, or of a read-only state invariant")
                 continue
             if any(rb != b and f.dominates(rb, b) for rb in rem_blocks):
                 ctx.ok("C06.d", "%s:no-panic-arm" % fk, f.loc(b), "assertion behind a removal: not reachable by a revoke that finds nothing")
